@@ -112,7 +112,11 @@ def main():
         cov.setdefault(k, v)
     ev = dict(property_id=pid, tier=tier, seed=seed, level="proof", coverage=cov,
               assumptions=ctx.assumptions, wall_s=round(wall, 2), violations=nviol)
-    (VERIF / "evidence" / ("%s.json" % pid)).write_text(json.dumps(ev, indent=1, default=vlib.jsonable))
+    evdir = VERIF / "evidence"
+    if os.environ.get("VERIF_TAG"):
+        evdir = vlib.RUN / ("evidence_" + os.environ["VERIF_TAG"])
+        evdir.mkdir(parents=True, exist_ok=True)
+    (evdir / ("%s.json" % pid)).write_text(json.dumps(ev, indent=1, default=vlib.jsonable))
 
     for ln in lines:
         print(ln)
